@@ -142,6 +142,7 @@ def run(tier, work):
             raise vlib.Broken("CmdTurnImpl with %s satisfies the invariants: they are vacuous" % cfg)
     print("TLC P1 CmdTurnImpl weakened (cursor stays on the served slot / single call per cycle / no turn test): violated, as required")
     hists, _ = vlib.generate(SPEC, "CmdTurnGen", "GenQuick.cfg" if tier == "quick" else "GenThorough.cfg", work, "p2a")
+    hists, nexh = vlib.cap_histories(hists, 150000)
     nsim = 1200 if tier == "quick" else 30000
     sims, _ = vlib.generate(SPEC, "CmdTurnGen", "GenSim.cfg", work, "p2b", workers=4,
                             simulate="num=%d" % nsim, extra=["-depth", "9", "-seed", str(vlib.SEED)], timeout=900)
